@@ -346,6 +346,52 @@ theorem argmin_partial (top : V) (xs : List V) (h : ∃ x ∈ xs, V.lt x top = t
 
 example : ∃ x ∈ [V.fin 7, V.pinf, V.fin 3], V.lt x .pinf = true := ⟨.fin 7, by simp, rfl⟩
 
+/-- the documented contract of the float entry point: `argmin_value_float` returns `None` exactly when the input is empty or
+    every item is NaN or +∞ -/
+theorem argmin_float_none_iff (xs : List V) :
+    argminValueFloat xs = none ↔ ∀ x ∈ xs, x = V.nan ∨ x = V.pinf := by
+  have hspec := argmin_minimal .pinf (xs.map some)
+  unfold argminValueFloat argminValue
+  constructor
+  · intro hn
+    rw [hn] at hspec
+    intro x hx
+    obtain ⟨j, hj⟩ := List.getElem?_of_mem hx
+    have := hspec j x (by rw [List.getElem?_map, hj]; rfl)
+    cases x <;> simp_all [V.lt]
+  · intro hall
+    cases hr : argminValueOpt .pinf (xs.map some) with
+    | none => rfl
+    | some p =>
+      obtain ⟨i, v⟩ := p
+      rw [hr] at hspec
+      obtain ⟨h1, h2, _, _⟩ := hspec
+      rw [List.getElem?_map] at h1
+      cases hx : xs[i]? with
+      | none => rw [hx] at h1; cases h1
+      | some w =>
+        rw [hx] at h1
+        simp only [Option.map_some, Option.some.injEq] at h1
+        subst h1
+        rcases hall w (List.mem_of_getElem? hx) with h | h <;> rw [h] at h2 <;> cases h2
+
+example : argminValueFloat [.nan, .pinf, .pinf] = none := by decide
+
+/-- `argmax_opt` / `argmax`: the mirror statement — first index of a greatest comparable value, strictly above
+    `T::min_value()`; `None` when nothing compares above it -/
+theorem argmax_maximal (bot : V) (xs : List (Option V)) :
+    match argmaxOpt bot xs with
+    | some i => ∃ v, xs[i]? = some (some v) ∧ V.lt bot v = true ∧
+        (∀ (j : Nat) (w : V), xs[j]? = some (some w) → V.lt v w = false) ∧
+        (∀ (j : Nat) (w : V), j < i → xs[j]? = some (some w) → w ≠ v)
+    | none => ∀ (j : Nat) (w : V), xs[j]? = some (some w) → V.lt bot w = false := by
+  unfold argmaxOpt
+  rcases argmaxGo_spec xs 0 none bot with ⟨_, h2, h3⟩ | ⟨j, h1, h2, h3, h4, h5⟩
+  · rw [h2]; exact h3
+  · rw [h1, Nat.zero_add]; exact ⟨_, h2, h3, h4, h5⟩
+
+example : argmaxOpt (.fin 0) [some (.fin 1), none, some .nan, some (.fin 7), some (.fin 7)] = some 3 := by decide
+
 /-- scalar reference distances -/
 def refDist : Metric → List Int → List Int → Int
   | .l2, v, c => scalarDef sqDiff v c
